@@ -5,7 +5,8 @@
 //!   float_range_hits_end / float_range_other / float_range_length_overflow
 //!   determinism
 //!   shuffle_is_permutation, shuffle_reaches_all, shuffle_frequency
-//!   small_range_not_periodic (+ low-bit machine diagnostic, evidence only)
+//!   small_range_not_periodic — every range form of every type over value sets of <= 2^16 values, incl. the
+//!     full-width forms of the 8- and 16-bit types (+ low-bit machine diagnostic, evidence only)
 //! No oracle refers to the actual numbers of the stream.
 
 mod floats;
@@ -213,22 +214,27 @@ fn main() {
     if let Err(e) = streams::period_detector_selftest() {
         run.machinery_failure(&e);
     }
-    let (pseeds, draws, maxp) = tier.pick((256u64, 4096usize, 1024usize), (4096, 16384, 4096));
-    let pr = streams::run_period(pseeds, draws, maxp);
+    let budget = tier.pick(
+        streams::PeriodBudget { seeds: 256, seeds_forms: 64, seeds_long: 32, draws: 4096, maxp: 1024 },
+        streams::PeriodBudget { seeds: 4096, seeds_forms: 256, seeds_long: 128, draws: 16384, maxp: 4096 },
+    );
+    let pr = streams::run_period(budget);
+    run.cov("period_cases", pr.cases);
     run.cov("period_streams", pr.streams);
-    run.cov("period_draws_per_stream", draws as u64);
-    run.cov("period_max_period_searched", maxp as u64);
+    run.cov("period_draws", pr.draws);
+    run.cov("period_seeds_per_case_plain_forms_long", json!([budget.seeds, budget.seeds_forms, budget.seeds_long]));
+    run.cov("period_draws_per_stream", budget.draws as u64);
+    run.cov("period_max_period_searched", budget.maxp as u64);
+    run.cov("period_full_width_cases", pr.full_width_cases);
+    run.cov("period_streams_searched_up_to_the_value_count", pr.long_streams);
+    run.cov("period_cases_and_streams_per_type_and_form", Value::Object(pr.per_type_form.iter().map(|(k, c, s)| (k.clone(), json!({"cases": c, "streams": s}))).collect()));
     run.cov("period_distinct_streams", pr.distinct_streams);
     run.cov("period_periodic_streams", pr.periodic);
-    run.cov("period_periodic_by_len", Value::Array(pr.periodic_lens.iter().map(|(l, n, p)| json!({"len": l, "periodic_seeds": n, "smallest_period": p})).collect()));
+    run.cov("period_periodic_cases", pr.periodic_cases.len() as u64);
+    run.cov("period_periodic_by_case", Value::Array(pr.periodic_cases.iter().take(40).map(|(l, n, p)| json!({"case": l, "periodic_seeds": n, "smallest_period": p})).collect()));
     evaluations += pr.streams;
-    if let Some((len, seed, what)) = &pr.first {
-        let lens: Vec<usize> = pr.periodic_lens.iter().map(|e| e.0).collect();
-        run.violation(Violation::new(
-            format!("small_range_not_periodic:len={len}:seed={seed}"),
-            format!("the {draws}-draw stream of next(0..{len}) from Rng::from_seed({seed}) has {what}; {} of {} streams are periodic with period <= {maxp}, for len in {lens:?}", pr.periodic, pr.streams),
-            json!({"family": "small_range_not_periodic", "len": len, "seed": seed.to_string(), "draws": draws, "max_period": maxp}),
-        ));
+    if let Some((case, seed, what)) = &pr.first {
+        run.violation(streams::period_violation(case, *seed, what, &pr));
     }
     if pr.distinct_streams < pr.streams / 4 {
         // 2^k-periodic streams of different seeds may coincide, but not most of them
@@ -236,7 +242,12 @@ fn main() {
             run.machinery_failure("most small-range streams coincide although none is periodic");
         }
     }
-    run.sample(json!({"family": "small_range_not_periodic", "seed": "0", "len": 4, "first_draws": format!("{:?}", streams::small_stream(0, 4, 16))}));
+    // every form of every type, the full-width forms of the four narrow types, and the long streams ran
+    if pr.per_type_form.len() != 4 * 5 + 6 * 4 || pr.full_width_cases != 4 * 2 + 2 || pr.long_streams == 0 || pr.cases < 1000 {
+        run.machinery_failure("the periodicity family did not visit every range form of every type (incl. the full-width forms of the 8- and 16-bit types)");
+    }
+    run.sample(json!({"family": "small_range_not_periodic", "seed": "0", "call": "next::<usize, _>(0..4)", "first_draws": format!("{:?}", streams::stream::<usize>(ints::Form::Range, 0, 4, 0, 16))}));
+    run.sample(json!({"family": "small_range_not_periodic", "seed": "0", "call": "next::<u8, _>(..)", "first_draws": format!("{:?}", streams::stream::<u8>(ints::Form::Full, 0, 0, 0, 16))}));
     run.cov("lowbit_machine_diagnostic", streams::lowbit_diagnostic());
 
     // ---------------------------------------------------------------- totals
@@ -245,11 +256,13 @@ fn main() {
     run.cov(
         "rule",
         "integer: every (start,end) of a..b, a..=b, ..b, ..=b, .. for i8/u8 (thorough: also every ..b, ..=b for i16/u16) and all pairs of boundary values + anchored boundary lengths (1,2,3,2^k,2^k+-1,MAX,full) for the wider types, each crossed with the raw alphabet R(len) (0..=2len, top of u64, neighbours of multiples of len near 2^8..2^64, powers of two, ceil(k*2^64/len)); float: all ordered pairs of a 20-value boundary grid x 2300 raw values; generator: all seeds of the stated sets. \
+         serial structure: for every integer type and every value-set size n in {2..16, 32, 64, 128, 255, 256} (16-bit types: also 2^9..2^15 and 65535) every range form denoting n values (a..a+n and a..=a+n-1 for a in {0, MIN, 1}, ..n, ..=n-1), and for the 8- and 16-bit types the full-width forms (.., MIN..=MAX, ..=MAX): the stream of consecutive draws from every seed of the case has no period p <= max(n, tier base), searched in a stream of at least 3 periods (seeds [0,S) per case, S stated in period_seeds_per_case_plain_forms_long for plain next(0..len) on usize / the other cases / streams longer than the tier base). \
          distinct_nontrivial = number of distinct integer (type,form,range) cases + float ranges whose draws produced at least two different in-range values (measured)",
     );
     run.cov("exhaustive", true);
     run.cov("exhaustive_note", "exhaustive over the stated finite sets (all 8-bit ranges, the boundary sets for wider types, the float grid, seeds [0,S)); not over all u64 raw values or all seeds");
     run.assume("`..b` and `..=b` are read as the library and its own tests read them, as 0..b and 0..=b: a non-positive (negative) end is an empty range and outside the domain; results are accepted anywhere inside the written range MIN..b, and only 0..b is required to be reachable");
     run.assume("reachability of a small range is witnessed on a stated finite raw alphabet (which contains 0..=2*len and ceil(k*2^64/len) for every k), not on all of u64");
+    run.assume("for the periodicity clause a 'small range' is a range of any form with at most 2^16 values (which includes the full-width forms of the 8- and 16-bit types); 'not periodic' = no p <= max(value count, tier base) with s[i] == s[i+p] throughout a stream of at least 3p draws");
     run.finish(&confirm)
 }
